@@ -23,7 +23,7 @@ def _resp_bytes(j):
 class Inst(object):
     """One makeRequest() call."""
     __slots__ = ("rid", "seq", "noreply", "d", "fired", "result", "cancelled", "written", "answered_by",
-                 "issued_closed", "cancel_conn", "closes")
+                 "issued_closed", "cancel_conn", "closes", "cancels")
 
     def __init__(self, rid, seq, noreply):
         self.rid = rid
@@ -37,6 +37,7 @@ class Inst(object):
         self.answered_by = None
         self.issued_closed = False
         self.cancel_conn = None
+        self.cancels = False
         self.closes = False
 
 
@@ -113,6 +114,11 @@ class BrokerClientHarness(object):
             self._judge_completion(inst)
             if inst.closes and not self.closed:
                 self._do_close("")  # application code closing the client from inside the response callback
+            if getattr(inst, "cancels", False):
+                # application code cancelling its other outstanding requests from inside a completion callback
+                for x in self.pending_insts():
+                    if x is not inst and not x.cancelled:
+                        self._do_cancel("%d.%d" % (x.rid, x.seq))
             return None
         inst.d.addBoth(cb)
 
@@ -214,6 +220,9 @@ class BrokerClientHarness(object):
                 en.append(("req:R", (0, 0)))
                 if self.cfg.get("reentrant") and not any(x.closes for x in self.insts) and not self.closed:
                     en.append(("req:C", (0, 1)))  # its completion callback calls close() re-entrantly
+                if self.cfg.get("reentrant") and not any(getattr(x, "cancels", False) for x in self.insts) \
+                        and not self.closed:
+                    en.append(("req:K", (0, 1)))  # its completion callback cancels the other pending requests
                 if self.cfg.get("noreply", True):
                     en.append(("req:N", (0, 0)))
                 if self.dups < 1:
@@ -250,6 +259,7 @@ class BrokerClientHarness(object):
         rid = len(self.insts) + 1
         inst = Inst(rid, len(self.insts), noreply)
         inst.closes = arg == "C"
+        inst.cancels = arg == "K"
         d = self.bc.makeRequest(rid, _req_bytes(rid, noreply), expectResponse=not noreply)
         inst.d = d
         inst.issued_closed = self.closed
@@ -513,7 +523,7 @@ class BrokerClientHarness(object):
                 conns.append((c.client_closing, ids, bytes(c.b2c), bytes(c.c2b),
                               [(j, a) for _k, j, _d, a in self.sent_frames.get(c.cid, [])],
                               self.big_sent.get(c.cid), getattr(c, "_delivered", 0) if self.big_sent.get(c.cid) else 0))
-        insts = [(x.rid, x.noreply, x.closes, x.fired, x.cancelled, type(getattr(x.result, "value", x.result)).__name__,
+        insts = [(x.rid, x.noreply, x.closes, getattr(x, "cancels", False), x.fired, x.cancelled, type(getattr(x.result, "value", x.result)).__name__,
                   x.written[-1:] if not x.fired else None) for x in self.insts]
         mon = (insts, self.dups, self.closed, self.close_fired, self.consec_failures,
                None if self.expected_attempt_at is None else round(self.expected_attempt_at - self.clock.seconds(), 9),
